@@ -13,7 +13,7 @@ VERIF = os.path.dirname(os.path.dirname(os.path.abspath(__file__)))
 class FuncDesc:
     def __init__(self, key, src, name, sig, cls=None, cls_ordinal=0, ordinal=0, ret='void', ret_base=None, ret_ref=False,
                  params=None, bases=None, static=False, typemap=None, consts=None, lambdas=None, env=None, base_alias=None,
-                 must_fire=(), family=None, typenames=(), templates=(), self_cls=None, ctor_init=None, selfname='self'):
+                 must_fire=(), family=None, typenames=(), templates=(), self_cls=None, ctor_init=None, selfname='self', as_base=False, lead_base=(), targs_as_args=False, call_base=None, params_complete=False):
         self.key, self.src, self.name, self.sig = key, src, name, sig
         self.cls, self.cls_ordinal, self.ordinal = cls, cls_ordinal, ordinal
         self.ret, self.ret_base, self.ret_ref = ret, ret_base, ret_ref
@@ -32,6 +32,11 @@ class FuncDesc:
         self.self_cls = self_cls or cls
         self.ctor_init = ctor_init   # for constructors: {'base': cname of base-class/delegated ctor}
         self.selfname = selfname
+        self.as_base = as_base
+        self.lead_base = tuple(lead_base)
+        self.targs_as_args = targs_as_args
+        self.call_base = call_base
+        self.params_complete = params_complete
 
 
 class ClassDesc:
@@ -112,14 +117,16 @@ class UnitBuilder:
         if cls and cls in fam.classes:
             for m, fk in fam.classes[cls].methods.items():
                 fd = self.funcs[fk]
-                methods[m] = FuncInfo(fd.key, fd.ret, fd.ret_base, fd.static, ref=fd.ret_ref)
+                methods[m] = FuncInfo(fd.key, fd.ret, getattr(fd, 'call_base', None) or fd.ret_base, fd.static, ref=fd.ret_ref, as_base=getattr(fd, 'as_base', False), lead_base=getattr(fd, 'lead_base', ()),
+                                      params=list(fd.params.values()) if getattr(fd, 'params_complete', False) else None)
+                methods[m].targs_as_args = getattr(fd, 'targs_as_args', False)
             consts.update(self.consts.get(cls, {}))
             consts.update(fam.classes[cls].consts)
         sm = dict(fam.struct_methods)
         for ck, cd in fam.classes.items():
             for m, fk in cd.methods.items():
                 fd = self.funcs[fk]
-                sm.setdefault((ck, m), FuncInfo(fd.key, fd.ret, fd.ret_base, fd.static, ref=fd.ret_ref))
+                sm.setdefault((ck, m), FuncInfo(fd.key, fd.ret, fd.ret_base, fd.static, ref=fd.ret_ref, as_base=getattr(fd, 'as_base', False)))
         ctx = Ctx(cls=cls, fields=structs.get(cls, {}) if cls else {}, methods=methods, structs=structs, struct_methods=sm,
                   funcs=fam.funcs, ops=fam.ops, callops=fam.callops, conv=fam.conv, typemap=fam.typemap, consts=consts)
         ctx.floating = fam.floating
@@ -139,9 +146,10 @@ class UnitBuilder:
             lines = []
             consts = {}
             if cd.base_struct:
-                fields.update(self.struct_fields.get(cd.base_struct, {}))
+                bf = self.struct_fields.get(cd.base_struct) or fam.extra_structs.get(cd.base_struct, {})
+                fields.update(bf)
                 lines.append('  /* base class %s (fields flattened in declaration order) */' % cd.base_struct)
-                for fn_, ft_ in self.struct_fields.get(cd.base_struct, {}).items():
+                for fn_, ft_ in bf.items():
                     lines.append('  %s %s;' % (ctx.ctype(ft_), fn_))
             for f in src.class_fields(scope):
                 nm = f['name']
@@ -209,7 +217,7 @@ class UnitBuilder:
         ctx.typemap.update(fd.typemap)
         ctx.consts.update(fd.consts)
         ctx.fn = key
-        ctx.ret = fd.ret
+        ctx.ret = fd.ret if not fd.as_base else 'Ptr<' + tparam(fd.ret) + '>'
         ctx.ret_ref = fd.ret_ref
         ctx.ret_base = fd.ret_base
         ctx.base_alias = fd.base_alias
